@@ -29,6 +29,9 @@ def admM1 : Addr := ⟨true, 10⟩
 def pktV0 : Addr := ⟨true, 20⟩
 def unixU0 : Addr := ⟨true, 0⟩
 
+/-- a0: an abstract unix socket (`unix/@verif-c02-<pid>-0`) -/
+def absA0 : Addr := ⟨true, 30⟩
+
 /-- the address of the other network kind at the same path -/
 def sibling (a : Addr) : Option Addr :=
   if a == unixU0 then some pktV0 else if a == pktV0 then some unixU0 else none
@@ -53,7 +56,7 @@ def rngP1 : Addr := ⟨false, 4⟩
 
 /-- protocol order: t0 t1 t2 m0 p0 p1 u0 u1 m1 (m0, m1: the admin endpoint's addresses; p0, p1: two
     consecutive ports, one address spec `r0` when a server lists them next to each other) -/
-def addrUniverse : List Addr := [⟨false, 0⟩, ⟨false, 1⟩, ⟨false, 2⟩, admM0, rngP0, rngP1, ⟨true, 0⟩, ⟨true, 1⟩, admM1, pktV0]
+def addrUniverse : List Addr := [⟨false, 0⟩, ⟨false, 1⟩, ⟨false, 2⟩, admM0, rngP0, rngP1, ⟨true, 0⟩, ⟨true, 1⟩, admM1, pktV0, absA0]
 
 def isAdminAddr (a : Addr) : Bool := a.id == 10
 
@@ -69,6 +72,7 @@ def addrOfName : String → Option Addr
   | "p0" => some rngP0
   | "p1" => some rngP1
   | "v0" => some pktV0
+  | "a0" => some absA0
   | _ => none
 
 def adminOfName : String → Option Addr
@@ -79,19 +83,21 @@ def adminOfName : String → Option Addr
 def addrName (a : Addr) : String :=
   if isAdminAddr a then (if a.unix then "m1" else "m0")
   else if a == pktV0 then "v0"
+  else if a == absA0 then "a0"
   else if a.unix then "u" ++ toString a.id
   else if a.id ≥ 3 then "p" ++ toString (a.id - 3)
   else "t" ++ toString a.id
 
 /-- position in the protocol order (admin addresses are never bound by the HTTP app) -/
-def addrIdx (a : Addr) : Nat := if a == pktV0 then 9 else if a.unix then 6 + a.id else if a.id ≥ 3 then a.id + 1 else a.id
+def addrIdx (a : Addr) : Nat := if a == absA0 then 10 else if a == pktV0 then 9 else if a.unix then 6 + a.id else if a.id ≥ 3 then a.id + 1 else a.id
 
 def digitCh (n : Nat) : Char := if n > 9 then '+' else Char.ofNat (48 + n)
 
 def genCh (g : Gen) : Char := "0123456789ABCDEFGHIJKLMNOPQRSTUVWXYZ".toList.getD (g % 36) '?'
 
 def sockStr (a : Addr) (k : Sock) : String :=
-  if a.unix then String.ofList [digitCh k.pool, digitCh k.ucnt, if k.file then '1' else '0']
+  -- (an abstract socket has no file for the harness to look at: its third character is always 0)
+  if a.unix then String.ofList [digitCh k.pool, digitCh k.ucnt, if k.file && !a.abstract then '1' else '0']
   else String.ofList [digitCh k.pool]
 
 /-- the file character of u0 / v0 is the file at their common path -/
@@ -389,7 +395,7 @@ def closingGen (s : State) (a : Addr) (g : Gen) : Bool :=
 def answerOk (s : State) (a : Addr) (ch : Char) : Bool :=
   let gs := (sockOf s a).gens
   let closedOk : Bool :=
-    if !a.unix then ch == 'r'
+    if !a.unix || a.abstract then ch == 'r'
     else if !pathFile s a then ch == 'n'
     else ch == 'r' || ch == 'o'
   -- the file at the path belongs to a listener of the other network kind that is being closed: it may
